@@ -20,6 +20,8 @@ def run(out, tier):
     nrand = 60 if quick else 600
     for i in range(nrand):
         behs.append({"src": "random-long", "steps": dc.gen_history(rng, 150, 10, 4, "filters")})
+    for i in range(60 if quick else 600):
+        behs.append({"src": "churn", "steps": dc.gen_churn(rng)})
     lines, found, results = dc.run_and_validate(out, behs, "c01")
     judge(out, behs, lines, found, "C01")
 
@@ -45,7 +47,8 @@ def judge(out, behs, lines, found, prop):
             nontriv.add((json.dumps(behs[beh]["steps"][:pos], sort_keys=True)))
     out.distinct_nontrivial = len(nontriv)
     out.rule = ("each trace is one OS process running one behaviour (TLC -simulate behaviours of MCDispatchSim and seeded random "
-                "histories of 150 steps over 10 collectors / 4 threads / 15 callsites x {event, span, enabled!}); counted: distinct "
+                "histories of 150 steps over 10 collectors / 4 threads / 15 callsites x {event, span, enabled!}, plus collector-turnover histories "
+                "in which the global maximum level goes down and up across already registered callsites); counted: distinct "
                 "history prefixes ending in an emission (the emission's outcome depends on the whole prefix)")
     out.samples = [behs[0]["steps"][:12], [x for x in lines[:40] if x.get("ev") == "emit"][:5]]
     out.assumptions = ["collectors' filters are self-consistent records (level threshold x target set x static/dyn/lazy x true-upper-bound hint)",
